@@ -386,7 +386,8 @@ func TestC20H_History(t *testing.T) {
 				sibling = a.Fork(a.Salt + 5000 + uint64(i))
 				forkLog = len(a.Log)
 			}
-			if _, err := a.MineRandomOrder(t, order); err != nil {
+			blkA, err := a.MineRandomOrder(t, order)
+			if err != nil {
 				t.Fatalf("HARNESS: mine: %v\n%s", err, strings.Join(a.Log, "\n"))
 			}
 			if sibling != nil {
@@ -399,8 +400,32 @@ func TestC20H_History(t *testing.T) {
 				if err := sibling.Adopt(); err != nil {
 					t.Fatalf("HARNESS: adopt sibling: %v", err)
 				}
-				if _, err := sibling.MineRandomOrder(t, sim.Prime); err != nil {
+				blkB, err := sibling.MineRandomOrder(t, sim.Prime)
+				if err != nil {
 					t.Fatalf("HARNESS: mine sibling: %v\n%s", err, strings.Join(sibling.Log, "\n"))
+				}
+				// the two siblings were built on the same parents with nothing in between: every
+				// conversion both of them confirm enters the repricing with the same (origin) amount
+				if blkA.Views[sim.Prime] != nil && blkB.Views[sim.Prime] != nil {
+					prime := n.Nodes[sim.Prime]
+					inA := map[oid]*types.Transaction{}
+					for _, e := range rawdb.ReadInboundEtxs(prime.DB, blkA.Views[sim.Prime].Hash()) {
+						if e.EtxType() == types.ConversionType || e.EtxType() == types.ConversionRevertType {
+							inA[oid{e.OriginatingTxHash(), e.ETXIndex()}] = e
+						}
+					}
+					for _, e := range rawdb.ReadInboundEtxs(prime.DB, blkB.Views[sim.Prime].Hash()) {
+						x, ok := inA[oid{e.OriginatingTxHash(), e.ETXIndex()}]
+						if !ok {
+							continue
+						}
+						stats.Label(partH, "conversion_confirmed_by_both_prime_siblings")
+						if x.Value().Cmp(e.Value()) != 0 || x.EtxType() != e.EtxType() {
+							stats.Violation(t, partH, "C20/H/prime-siblings-read-different-amounts", fmt.Sprintf("conversion %x:%d enters the repricing of prime block A (%x) with %v (type %d) and of its sibling B (%x), appended afterwards, with %v (type %d): the amount taken from the origin ledger is converted again",
+								e.OriginatingTxHash().Bytes()[:6], e.ETXIndex(), blkA.Views[sim.Prime].Hash().Bytes()[:4], x.Value(), x.EtxType(), blkB.Views[sim.Prime].Hash().Bytes()[:4], e.Value(), e.EtxType()), dump())
+							return
+						}
+					}
 				}
 				own := append([]string{}, sibling.Log[forkLog:]...)
 				sibling.Log = append(append(append([]string{}, a.Log...), "-- prime fork: the entries since the fork above are block A; the node now appends and follows sibling block B:"), own...)
